@@ -1,6 +1,9 @@
 /* ---- guard_ptr / region_guard harnesses (protect side, guard algebra).  thread_data is the counting stub gs_*:
  * enter_critical / leave_critical are proved against the real text in harness_td.h ---- */
+/* "the guard holds a critical entry" is the code's own notion bool(ptr): the whole marked_ptr word != 0 - true also for a MARKED NULL value
+ * (nullptr, mark != 0).  All inputs range over all words (nondet_uptr), marked null included (canaries *.marked_null). */
 #define NZ(w) ((w) != 0 ? 1u : 0u)
+#define MARKED_NULL(w) ((w) != 0 && MP_get(w) == 0)
 _Bool env_src_on;
 #ifdef XV_INT
 static void env_td(void);
@@ -25,6 +28,7 @@ void h_g_ctor(void) {
   XV_OBL("ebr.copy.shares", g.ptr == p && o.ptr == o0);
   XV_OBL("ebr.nesting.balanced", BALANCED(0, g.ptr, o0, o.ptr) && gs_enter == NZ(p) && gs_leave == 0);
   if (p) XV_CANARY("g_ctor.nonnull"); else XV_CANARY("g_ctor.null");
+  if (MARKED_NULL(p)) XV_CANARY("g_ctor.marked_null");
 }
 void h_g_copy(void) {
   struct guard g, s; g_setup(&g, &s); mptr s0 = s.ptr; g.ptr = 0; nest = g_base + NZ(s0);
@@ -32,6 +36,7 @@ void h_g_copy(void) {
   XV_OBL("ebr.copy.shares", g.ptr == s0 && s.ptr == s0);
   XV_OBL("ebr.nesting.balanced", BALANCED(0, g.ptr, s0, s.ptr) && gs_enter == NZ(s0) && gs_leave == 0);
   if (s0) XV_CANARY("g_copy.nonnull"); else XV_CANARY("g_copy.null");
+  if (MARKED_NULL(s0)) XV_CANARY("g_copy.marked_null");
 }
 void h_g_move(void) {
   struct guard g, s; g_setup(&g, &s); mptr s0 = s.ptr; g.ptr = 0; nest = g_base + NZ(s0);
@@ -45,6 +50,14 @@ void h_g_reset(void) {
   g_reset(&g);
   XV_OBL("ebr.nesting.balanced", g.ptr == 0 && o.ptr == o0 && BALANCED(g0, 0, o0, o0) && gs_enter == 0 && gs_leave == NZ(g0));
   if (g0) XV_CANARY("g_reset.nonnull"); else XV_CANARY("g_reset.null");
+  if (MARKED_NULL(g0)) XV_CANARY("g_reset.marked_null");
+}
+void h_g_dtor(void) {          /* detail::guard_ptr::~guard_ptr() { self().reset(); } */
+  struct guard g, o; g_setup(&g, &o); mptr g0 = g.ptr, o0 = o.ptr;
+  g_dtor(&g);
+  XV_OBL("ebr.nesting.balanced", o.ptr == o0 && !gs_underflow && nest == g_base + NZ(o0) && gs_enter == 0 && gs_leave == NZ(g0));
+  if (g0) XV_CANARY("g_dtor.nonnull"); else XV_CANARY("g_dtor.null");
+  if (MARKED_NULL(g0)) XV_CANARY("g_dtor.marked_null");
 }
 void h_g_assign_copy(void) {
   struct guard g, s; g_setup(&g, &s); mptr g0 = g.ptr, s0 = s.ptr;
@@ -57,6 +70,7 @@ void h_g_assign_copy(void) {
     XV_OBL("ebr.nesting.balanced", BALANCED(g0, g.ptr, s0, s.ptr) && gs_leave == NZ(g0) && gs_enter == NZ(s0));
     /* the source keeps its own critical entry while the target leaves and re-enters: the counter never drops to 0 in between */
     if (g0 && s0) { XV_OBL("ebr.nesting.balanced", gs_leave_clk < gs_enter_clk); XV_CANARY("g_assign_copy.both"); }
+    if (MARKED_NULL(s0)) XV_CANARY("g_assign_copy.marked_null");
     if (!g0 && s0) XV_CANARY("g_assign_copy.into_empty");
     if (g0 && !s0) XV_CANARY("g_assign_copy.from_empty");
   }
@@ -71,6 +85,7 @@ void h_g_assign_move(void) {
     XV_OBL("ebr.move.empties_source", r == &g && g.ptr == s0 && s.ptr == 0);
     XV_OBL("ebr.nesting.balanced", BALANCED(g0, g.ptr, s0, s.ptr) && gs_leave == NZ(g0) && gs_enter == 0);
     if (g0 && s0) XV_CANARY("g_assign_move.both");
+    if (MARKED_NULL(s0)) XV_CANARY("g_assign_move.marked_null");
     if (!g0 && s0) XV_CANARY("g_assign_move.into_empty");
   }
 }
@@ -81,11 +96,13 @@ void h_g_acquire(void) {
   g_acquire(&g, &src, order);
   env_src_on = 0;
   if (g.ptr != 0) {
+    if (MARKED_NULL(g.ptr)) XV_CANARY("g_acquire.marked_null");
     XV_OBL("ebr.acquire.snapshot", mon_src_loads == 2 && g.ptr == mon_src_last && mon_src_last_order == order);
     if (g0) { XV_OBL("ebr.acquire.enter_before_load", gs_enter == 0 && gs_leave == 0); XV_CANARY("g_acquire.stays_in_region"); }
     else { XV_OBL("ebr.acquire.enter_before_load", gs_enter == 1 && gs_leave == 0 && gs_enter_clk < mon_src_last_clk); XV_CANARY("g_acquire.entered"); }
   } else {
     if (mon_src_loads == 1) XV_CANARY("g_acquire.null_first");
+    if (MARKED_NULL(g0)) XV_CANARY("g_acquire.was_marked_null");
 #ifdef XV_INT
     else XV_CANARY("g_acquire.null_second");
 #endif
